@@ -248,10 +248,10 @@ def mk(kind, args, kids):
 # generators
 # -------------------------------------------------------------------------------------------------
 
-EXT = [0, 1, 1, 2, 2, 2, 3, 3, 4]
+EXT = [0, 1, 1, 1, 2, 2, 2, 3, 3, 4]
 
 
-def rand_shape(rng, lo=0, hi=3, max_size=30):
+def rand_shape(rng, lo=0, hi=4, max_size=36):
     for _ in range(30):
         r = int(rng.integers(lo, hi + 1))
         s = [int(rng.choice(EXT)) for _ in range(r)]
@@ -265,7 +265,7 @@ def gen_lit(rng, shape=None, fill=None, bad_p=0.02):
     shape = rand_shape(rng) if shape is None else [int(s) for s in shape]
     fill = int(rng.choice([0, 0, 0, 1, -2, 3])) if fill is None else int(fill)
     size = int(np.prod(shape, dtype=np.int64))
-    k = 0 if size == 0 else int(rng.integers(0, min(2 * size, 9) + 1))
+    k = 0 if size == 0 else int(rng.integers(0, min(2 * size, 12) + 1))
     if len(shape) == 0:
         k = int(rng.integers(0, 3))
     coords = [[int(rng.integers(0, d)) for d in shape] for _ in range(k)]
